@@ -697,3 +697,84 @@ async fn standin_cdrop_under_contention() {
     let c = tokio::time::timeout(Duration::from_secs(2), pool.checkout(key.clone(), true, h2_connector(MockTransport::reusable()))).await;
     assert!(matches!(c, Ok(Ok(_))), "request after a cancelled one did not complete");
 }
+
+// ======================= unit `tokenmap` / unit `pooltake` (small class-A functions now under contract) =======================
+
+/// tm.default.* / tm.insert.fresh / tm.insert.counter / tm.insert.stable / tm.insert.maps [C06]: a fresh map numbers new
+/// origins 1, 2, 3, ... (the number is visible through `Debug for Token`); a known origin keeps its token and does not
+/// advance the counter
+#[test]
+fn tokenmap_sequence() {
+    let mut map: key::TokenMap<key::UriKey> = Default::default();
+    let k = |i: usize| -> key::UriKey { (http::uri::Scheme::HTTPS, format!("seq-{i}.example:8443").parse::<http::uri::Authority>().unwrap()).into() };
+    for i in 1..=50usize {
+        let t = map.insert(k(i));
+        assert_eq!(format!("{t:?}"), format!("Token({i})"), "the {i}-th new origin did not get token number {i}");
+        // every origin seen so far still has its own token, and asking again changes nothing
+        for j in 1..=i {
+            assert_eq!(format!("{:?}", map.insert(k(j))), format!("Token({j})"), "origin {j} lost its token after origin {i} was added");
+        }
+    }
+    assert_eq!(format!("{:?}", map.insert(k(51))), "Token(51)", "re-inserting known origins advanced the counter");
+}
+
+/// take.returns_stored / take.leaves_nothing [C02]: `Pooled::take` hands out the stored connection and the emptied handle
+/// that is dropped inside `take` does not ALSO send it back to the idle list (nor to a waiting request)
+#[tokio::test]
+async fn pooled_take_leaves_nothing() {
+    for share in [false, true] {
+        let pool: TPool = Pool::new(cfg(5));
+        let t = pool.keys.lock().insert(example_key());
+        let (tx, mut rx) = tokio::sync::oneshot::channel();
+        pool.inner.lock().waiting.entry(t).or_default().push_back(tx);
+        let c = TestConn::mk(share);
+        let id = c.id();
+        let handle = Pooled { connection: Some(c), token: t, pool: pool.as_ref() };
+        let got = handle.take().expect("take() did not return the stored connection");
+        assert_eq!(got.id(), id, "take() returned another connection");
+        for _ in 0..5 { tokio::task::yield_now().await; }
+        assert!(rx.try_recv().is_err(), "a taken connection (share={share}) was also handed to a waiting request");
+        assert_eq!(pool.inner.lock().idle.get(&t).map(raw_len).unwrap_or(0), 0, "a taken connection (share={share}) was also returned to the idle list");
+        drop(got);
+    }
+}
+
+/// pdrop.excl_handed_on / pdrop.spawn_only_live / pdrop.spawn_only_excl / pdrop.empties [C02]: dropping a handle returns an
+/// exclusive connection (once ready) exactly once; a multiplexed handle and an emptied handle return nothing
+#[tokio::test]
+async fn pooled_drop_hands_back_once() {
+    let pool: TPool = Pool::new(cfg(5));
+    let t = pool.keys.lock().insert(example_key());
+    let c = TestConn::h1();
+    let id = c.id();
+    drop(Pooled { connection: Some(c), token: t, pool: pool.as_ref() });
+    for _ in 0..5 { tokio::task::yield_now().await; }
+    assert_eq!(pool.inner.lock().idle.get(&t).map(raw_len).unwrap_or(0), 1, "a ready exclusive connection was not handed back exactly once");
+    assert_eq!(pool.inner.lock().pop(t).map(|c| c.id()), Some(id));
+    drop(Pooled { connection: Some(TestConn::h2()), token: t, pool: pool.as_ref() });
+    drop(Pooled::<TestConn, crate::Body> { connection: None, token: t, pool: pool.as_ref() });
+    for _ in 0..5 { tokio::task::yield_now().await; }
+    assert_eq!(pool.inner.lock().idle.get(&t).map(raw_len).unwrap_or(0), 0, "a multiplexed or emptied handle put something into the idle list");
+}
+
+/// pooled.deref / pooled.is_open / pooled.can_share / pooled.poll_ready [C02]: the handle's accessors are those of the
+/// connection it holds
+#[tokio::test]
+async fn pooled_accessors_forward() {
+    use crate::client::conn::Connection as _;
+    let pool: TPool = Pool::new(cfg(5));
+    for (share, open, ready) in [(false, true, true), (false, false, true), (true, true, false), (true, false, false)] {
+        let c = TestConn::mk(share);
+        c.open.store(open, std::sync::atomic::Ordering::SeqCst);
+        c.ready.store(ready, std::sync::atomic::Ordering::SeqCst);
+        let id = c.id();
+        let mut p = Pooled { connection: Some(c), token: Token::zero(), pool: pool.as_ref() };
+        assert_eq!((&*p).id(), id, "deref does not yield the held connection");
+        assert_eq!(p.is_open(), open, "is_open is not the connection's");
+        assert_eq!(p.can_share(), share, "can_share is not the connection's");
+        let polled = std::future::poll_fn(|cx| std::task::Poll::Ready(p.poll_ready(cx))).await;
+        assert_eq!(polled.is_ready(), ready, "poll_ready is not the connection's");
+        assert_eq!((&*p).id(), id, "poll_ready replaced the held connection");
+        std::mem::forget(p);
+    }
+}
